@@ -15,6 +15,9 @@ def models(quick):
     else:
         m.append(ModelRun("C01_a2n3", letters=[0, 1], maxlen=3, maxn=3, ks=[1, 2, 3], invariants=INVS))
         m.append(ModelRun("C01_a3", letters=[0, 1, 2], maxlen=3, maxn=2, ks=[1, 2, 3], invariants=INVS))
+        m.append(ModelRun("C01_a2l4", letters=[0, 1], maxlen=4, maxn=2, ks=[1, 2, 3, 4], invariants=INVS))
+        m.append(ModelRun("C01_a3n3", letters=[0, 1, 2], maxlen=2, maxn=3, ks=[1, 2], invariants=INVS))
+        m.append(ModelRun("C01_a4", letters=[0, 1, 2, 3], maxlen=2, maxn=2, ks=[1, 2], invariants=INVS))
     return m
 
 
@@ -28,7 +31,7 @@ def run(ctx):
     # ---- M + R: exhaustive model, replayed
     for mr in models(ctx.quick):
         res = npx.run_model(ctx, mr, coverage=not ctx.quick)
-        alph = ["ACD", "CWY", "a-#"] if len(mr.kw["letters"]) == 3 else ["AC", "WY", "xy"]
+        alph = {2: ["AC", "WY", "xy"], 3: ["ACD", "CWY", "a-#"], 4: ["ACDE", "wxyz"]}[len(mr.kw["letters"])]
         npx.replay_emitted(ctx, res, alph, budget=None if ctx.quick else 60000)
     ctx.exhaustive = True
     # ---- T: universes ("all pairs in one call") and random repertoires
